@@ -1087,7 +1087,7 @@ func (ex *Exec) step(fr *Frame, st *State, in ssa.Instruction) {
 		ex.mayPanic(st, fmt.Sprintf("(and (<= 0 %s) (<= %s %s))", ln, ln, cp), "makeslice-len", in)
 		at := types.NewArray(et, 1<<40)
 		c := ex.newCell(at, "make")
-		st.cells[c] = fmt.Sprintf("((as const (Array Int %s)) %s)", u.SortOf(et), u.Zero(et))
+		st.cells[c] = u.Zero(at)
 		fr.regs[x] = Val{Bk: &Backed{Cell: c, Len: ln, Cap: cp}}
 	case *ssa.MakeMap:
 		fr.regs[x] = Val{T: u.Zero(x.Type())}
